@@ -107,15 +107,15 @@ example : vlqLong ⟨0, 0⟩ [0x03, 0x07] = .value (-2) [0x07] := by decide
 /-- **Parquet `BitReader::get_vlq_int`** (byte aligned): a token of at most ten bytes is
 accepted with its exact length and — when it fits `u64` — its ULEB128 value (a ten-byte token
 that overflows is accepted with its high bits dropped); with eleven or more bytes available
-and no terminator among the first ten the function **panics**; it returns `None` only when
-the buffer ends first. -/
+and no terminator among the first ten the function returns `None`, as it does when the
+buffer ends first. -/
 theorem bitreader_vlq_relation (bs : List Nat) :
     match uleb bs with
     | some (v, n) =>
       if n ≤ 10 then ∃ w, bitReaderVlq bs = .ok (some (w, n)) ∧ w < 2 ^ 64 ∧ (v < 2 ^ 64 → w = v)
-      else bitReaderVlq bs = .error .panic
+      else bitReaderVlq bs = .ok none
     | none =>
-      if 11 ≤ bs.length then bitReaderVlq bs = .error .panic else bitReaderVlq bs = .ok none := by
+      if 11 ≤ bs.length then bitReaderVlq bs = .ok none else bitReaderVlq bs = .ok none := by
   have h := bitReaderVlqGo_spec bs 0 0 0 rfl (by omega) (by simp) (by simp)
   unfold bitReaderVlq
   cases hu : uleb bs with
@@ -124,11 +124,10 @@ theorem bitreader_vlq_relation (bs : List Nat) :
     obtain ⟨v, n⟩ := r
     simpa [hu] using h
 
-/-- **negative result (panic witness)**: eleven continuation bytes make `get_vlq_int` panic
-(`assert!(shift <= MAX_VLQ_BYTE_LEN * 7)`); reachable from RLE level data and the
-DELTA_BINARY_PACKED header of a corrupted page. -/
-theorem bitreader_vlq_panics_on_overlong :
-    bitReaderVlq [0xFF, 0xFF, 0xFF, 0xFF, 0xFF, 0xFF, 0xFF, 0xFF, 0xFF, 0xFF, 0xFF] = .error .panic := by rfl
+/-- eleven continuation bytes make `get_vlq_int` return `None` (an error for its callers: RLE
+level data, DELTA_BINARY_PACKED headers), not a panic -/
+theorem bitreader_vlq_rejects_overlong :
+    bitReaderVlq [0xFF, 0xFF, 0xFF, 0xFF, 0xFF, 0xFF, 0xFF, 0xFF, 0xFF, 0xFF, 0xFF] = .ok none := by rfl
 
 /-- all four zig-zag decoders compute the mathematical zig-zag inverse -/
 theorem zigzag_exact (v : Nat) (h : v < 2 ^ 64) : zigzagInt v = unzigzag v := zigzagInt_spec v h
@@ -300,7 +299,7 @@ theorem thrift_read_elems_backed_by_input {α} (elem : List Nat → Except Err (
 
 /-! ### (4) allocation bounds — and their failure for `read_thrift_vec` -/
 
-/-- the capacity `read_thrift_vec` reserves is at most `i32::MAX` elements … -/
+/-- the element count `read_thrift_vec` accepts is at most `i32::MAX` -/
 theorem thrift_vec_capacity_le_i32max (expected : Nat) (bs rest : List Nat) (n : Nat)
     (h : thriftVecCapacity expected bs = .ok (n, rest)) : n ≤ i32Max := by
   unfold thriftVecCapacity at h
@@ -314,18 +313,15 @@ theorem thrift_vec_capacity_le_i32max (expected : Nat) (bs rest : List Nat) (n :
     · simp only [Except.ok.injEq, Prod.mk.injEq] at h
       rw [← h.1]; exact (thrift_list_begin_progress _ _ _ hl).2
 
-/-- **negative result (allocation amplification)**: … and that bound is attained by a
-six-byte input: `FC FF FF FF FF 07` (list of struct, long-form size `2^31 - 1`) makes
-`read_thrift_vec` execute `Vec::with_capacity(2147483647)` before reading any element.  So
-the reservation is *not* bounded by `c · input.length` for any `c < 357913941`; with
-`size_of::<T>()` in the hundreds of bytes this is a request of hundreds of GiB from 6 bytes. -/
-theorem thrift_vec_capacity_not_bounded_by_input :
-    thriftVecCapacity THRIFT_ELEM_STRUCT [0xFC, 0xFF, 0xFF, 0xFF, 0xFF, 0x07] = .ok (2147483647, []) ∧
-    ∀ c, c < 357913941 → ¬ (2147483647 ≤ c * [0xFC, 0xFF, 0xFF, 0xFF, 0xFF, 0x07].length) := by
-  refine ⟨by rfl, ?_⟩
-  intro c hc
-  simp only [List.length_cons, List.length_nil]
+/-- **allocation bound of `read_thrift_vec`**: the up-front reservation is bounded by a
+constant number of elements and never exceeds the declared size; everything beyond it is
+allocated only as elements actually arrive (`thrift_read_elems_backed_by_input`). -/
+theorem thrift_vec_reserve_bounded (size : Nat) :
+    thriftVecReserve size ≤ THRIFT_LIST_PREALLOC_MAX ∧ thriftVecReserve size ≤ size := by
+  unfold thriftVecReserve
   omega
+
+example : thriftVecReserve 2147483647 = 1024 := by decide
 
 /-- **negative result (work amplification)**: `skip` on a list of `bool` performs one loop
 iteration per declared element *without consuming input* (`FieldType::BooleanTrue` carries
@@ -354,7 +350,7 @@ example : blockHeader [0x02, 0xFE, 0xFF, 0xFF, 0xFF, 0xFF, 0xFF, 0xFF, 0xFF, 0xF
 
 /-! ### (3) accept ⇒ in-bounds -/
 
-/-- **IPC `read_buffer`**: whenever the slice is taken (no panic) the `(offset, length)` pair
+/-- **IPC `read_buffer`**: whenever the slice is taken (no error) the `(offset, length)` pair
 lies inside the message body, with no wrap-around, for every `i64` pair including negative
 ones.  (`body.len() < 2^64 - 1` always holds for a real buffer.) -/
 theorem ipc_slice_in_bounds (bodyLen : Nat) (offset length : Int) (o l : Nat)
@@ -380,10 +376,10 @@ theorem ipc_slice_accepts_in_range (bodyLen o l : Nat) (h : o + l ≤ bodyLen) (
   have : min (o + l) (2 ^ 64 - 1) ≤ bodyLen := by omega
   simp [this]
 
-/-- **negative result (panic witness)**: an out-of-range pair is not rejected with an error:
-`slice_with_length` asserts.  `offset = 0, length = 9` on an 8-byte body, and `offset = -1`. -/
-theorem ipc_slice_panics_out_of_range :
-    ipcSlice 8 0 9 = .error .panic ∧ ipcSlice 8 (-1) 0 = .error .panic := by
+/-- an out-of-range pair is rejected with an error: `offset = 0, length = 9` on an 8-byte body,
+and `offset = -1`. -/
+theorem ipc_slice_rejects_out_of_range :
+    ipcSlice 8 0 9 = .error .oob ∧ ipcSlice 8 (-1) 0 = .error .oob := by
   constructor <;> rfl
 
 /-- Avro `get_bytes`: the returned slice is backed by the input (length from input, checked
@@ -579,7 +575,7 @@ theorem constants_tie :
     AVRO_SLOW_MAX = 10 ∧ AVRO_SLOW_LAST_IDX = 9 ∧ AVRO_SLOW_LAST_LIMIT = 2 ∧
     AVRO_STREAM_LAST_SHIFT = 63 ∧ AVRO_STREAM_LAST_LIMIT = 2 ∧ AVRO_STREAM_SHIFT_STEP = 7 ∧
     MAX_VLQ_BYTE_LEN = 10 ∧ BITREADER_VLQ_STEP = 7 ∧
-    THRIFT_VEC_RESERVES_SIZE_FROM_INPUT_lost = false ∧
+    THRIFT_LIST_PREALLOC_MAX = 1024 ∧ SHAPE_THRIFT_VEC_PREALLOC_lost = false ∧ SHAPE_THRIFT_LIST_PREALLOC_lost = false ∧
     -- shapes of the guards the model mirrors (LOST when the expression is edited)
     SHAPE_BUFFER_SLICE_ASSERT_lost = false ∧ SHAPE_IPC_READ_BUFFER_lost = false ∧
     SHAPE_AVRO_BLOCK_RESERVE_lost = false ∧ SHAPE_AVRO_BLOCK_COUNT_SIGN_lost = false ∧ SHAPE_AVRO_BLOCK_SIZE_SIGN_lost = false ∧
